@@ -3,6 +3,7 @@ import WhVerif.Lemmas.C02Thm
 import WhVerif.Lemmas.C02Compose
 import WhVerif.Lemmas.C02Example
 import WhVerif.Lemmas.C02PipelineExample
+import WhVerif.Lemmas.C02Raw
 /-!
 # C02 — property theorems (composition over the solver model)
 
@@ -207,5 +208,67 @@ example : ∃ sr comps, superReads exInst [10, 20, 30] = some sr ∧ components 
   ⟨sr, comps, h1, h2⟩
 
 end pipeline
+
+
+/-! ## Seams A → B → C inside Lean: from the reads the pipeline holds to the solver's precondition
+
+`Spec/C02Raw.lean`: the pipeline's reads are lists of `(position, allele, quality)`.  Stage A (allele detection) yields
+the candidate reads; its contract for error-free data is `RawErrFree cands hapAt src` (every candidate is an error-free
+copy of one true haplotype — a statement about each read by itself).  Stage B (read selection) keeps candidates number
+`sel[0], sel[1], …` unchanged.  Stage C: `ColumnIterator` converts the kept reads and the accessible positions into the
+column instance (`C01.mkInst`, proved faithful under C01).  `ErrFree`, which was the hypothesis of everything above, is now
+a consequence. -/
+
+/-- **pipeline_truth_from_raw_reads**.  Candidates satisfying stage A's contract, ANY selection of them, and a successful
+    conversion of the selected reads over ANY column positions (with the trusted heterozygous genotype table of one sample):
+    the solver's instance is `ErrFree` and `WF`, the solver reports cost 0, and every witness achieving the reported cost
+    gives, on every read-connected component, exactly the true alleles with one swap — at the true haplotype of the column's
+    genomic position `positions[c]`. -/
+theorem pipeline_truth_from_raw_reads (cands : List RawRead) (hapAt : Nat → Nat) (srcC : Nat → Bool)
+    (hA : RawErrFree cands hapAt srcC) (sel : List Nat) (hB : ∀ i ∈ sel, i < cands.length)
+    (positions recomb : List Nat) (I : Inst)
+    (hC : mkInst positions (selectReads cands sel) 1 [] (hetGeno positions.length) recomb = some I)
+    (hpos : ∀ p ∈ positions, hapAt p ≤ 1) :
+    let hap := fun c => hapAt (positions.getD c 0)
+    let src := fun k => srcC (sel.getD k 0)
+    ErrFree I hap src ∧ WF I ∧ dpCost I = some 0 ∧
+    ∀ (β : List Bool) (τ : List Nat), totalCost I β τ = dpCost I →
+      ∀ r0 r c, Connected I r0 r → covers I r c → c < I.ncols →
+        getAlleles I c (restrict β (I.activeAt c)) (τ.getD c 0) =
+          some [if β.getD r0 false = src r0 then (hap c, 1 - hap c) else (1 - hap c, hap c)] := by
+  intro hap src
+  have hef : ErrFree I hap src := errfree_of_raw hC hpos (rawErrFree_select hA sel hB)
+  have hwf : WF I := mkInst_wf hC
+  exact ⟨hef, hwf, WhVerif.C02.errfree_dpCost_zero hef hwf,
+    fun β τ hw r0 r c hconn hcov hc => WhVerif.C02.pipeline_truth_solver hef hwf β τ hw r0 r c hconn hcov hc⟩
+
+/-- **checked_precondition_sound**.  What the check evaluates on the traced solver input of every run (driver op
+    `c02.errfree` = `rawPreconditionB`) is sufficient for the hypotheses of the solver theorems. -/
+theorem checked_precondition_sound (positions : List Nat) (raws : List RawRead) (nind : Nat) (trios : List (Nat × Nat × Nat))
+    (geno : List (List (List (Option Nat)))) (recomb : List Nat) (hapAt : Nat → Nat) (src : Nat → Bool)
+    (h : rawPreconditionB positions raws nind trios geno recomb hapAt src = true) :
+    ∃ I, mkInst positions raws nind trios geno recomb = some I ∧
+      ErrFree I (fun c => hapAt (positions.getD c 0)) src ∧ WF I :=
+  rawPreconditionB_sound h
+
+/-- non-vacuity: four candidates over the positions 100 < 200 < 300 < 400 (truth 0,1,1,0 on haplotype 0), selection keeps
+    numbers 0, 2, 3 (the dropped candidate was the only one covering 400 together with 300: the column structure changes),
+    columns = positions of the kept reads -/
+def exCands : List RawRead :=
+  [⟨0, [(100, 0, 30), (200, 1, 30)]⟩, ⟨0, [(200, 0, 20), (300, 0, 20)]⟩, ⟨0, [(200, 1, 10), (300, 1, 10)]⟩,
+   ⟨0, [(300, 0, 7), (400, 1, 7)]⟩]
+def exTruth : Nat → Nat := hapAtOf [(100, 0), (200, 1), (300, 1), (400, 0)]
+def exSrcC : Nat → Bool := fun k => k == 1 || k == 3
+
+example : RawErrFree exCands exTruth exSrcC := (rawErrFreeB_iff _ _ _).mp (by decide)
+example : (mkInst [100, 200, 300, 400] (selectReads exCands [0, 2, 3]) 1 [] (hetGeno 4) []).isSome = true := by decide
+example : rawPreconditionB [100, 200, 300, 400] (selectReads exCands [0, 2, 3]) 1 [] (hetGeno 4) [] exTruth
+    (fun k => exSrcC ([0, 2, 3].getD k 0)) = true := by decide
+example : ∃ I, mkInst [100, 200, 300, 400] (selectReads exCands [0, 2, 3]) 1 [] (hetGeno 4) [] = some I ∧ dpCost I = some 0 := by
+  cases h : mkInst [100, 200, 300, 400] (selectReads exCands [0, 2, 3]) 1 [] (hetGeno 4) [] with
+  | none => exact absurd h (by decide)
+  | some I =>
+    exact ⟨I, rfl, (pipeline_truth_from_raw_reads exCands exTruth exSrcC ((rawErrFreeB_iff _ _ _).mp (by decide)) [0, 2, 3]
+      (by decide) [100, 200, 300, 400] [] I h (by decide)).2.2.1⟩
 
 end WhVerif.Props.C02
